@@ -173,6 +173,12 @@ func checkC07(p *Prog, r *Report) {
 			noErr = facts.Has(func(ft Fact) bool {
 				return ft.Op == "==" && ft.Val && p.isNilExpr(ft.Y) && p.isObj(ft.X, lookupErrObj)
 			})
+			if lookupErrObj == nil && p.writeToPairDirectForm(f, w, pairID, facts, nonNil) {
+				// the other spelling: the lookup only snapshots the pair and its state under the loop,
+				// and the caller itself rejects a missing pair and a state other than Succeeded
+				r.OK("WriteToPair: lookup succeeded", p.Pos(w.Pos()), "dominated by pair != nil and the state read under the loop == Succeeded")
+				continue
+			}
 			r.Check(noErr, "WriteToPair: lookup succeeded", p.Pos(w.Pos()), "dominated by lookupErr == nil", "the write is reachable although the pair lookup reported an error")
 			// the lookup closure
 			var lit *Func
@@ -582,4 +588,67 @@ func checkWritesRequireOpenAgent(p *Prog, r *Report) {
 		}
 		r.Check(ok, name+": a closed agent refuses the write", p.Pos(f.Body.Pos()), "the socket write is dominated by loop.Err() == nil", "a write on a closed agent reaches the candidate's socket instead of returning the closed error: a later API call does not 'return promptly and without effect' (with a plain UDP candidate it even reports success)")
 	}
+}
+
+// writeToPairDirectForm: the write w is dominated by pair != nil and S == Succeeded, where
+// every value of pair is pairsByID[<id parameter>] and every value of S is pair.state, both
+// assigned in a closure handed to the task loop.
+func (p *Prog) writeToPairDirectForm(f *Func, w *ast.CallExpr, pairID *ast.Ident, facts FactSet, nonNil bool) bool {
+	if !nonNil {
+		return false
+	}
+	pairObj := p.ObjOf(pairID)
+	inLoop := func(fn *Func) bool {
+		for _, e := range p.Callers(fn) {
+			if e.Kind == "arg" && e.Via == "taskloop.Loop.Run" {
+				return true
+			}
+		}
+		return false
+	}
+	// all non-zero definitions of o, in f and its closures, satisfy pred and sit in a loop closure
+	allDefs := func(o types.Object, pred func(rhs ast.Expr) bool) bool {
+		n := 0
+		seen := map[ast.Node]bool{}
+		for _, fn := range append([]*Func{f}, f.Lits...) {
+			for _, d := range p.DefsOf(fn, o) {
+				if d.Zero || (d.Rhs != nil && p.isNilExpr(d.Rhs)) || seen[d.Node] {
+					continue
+				}
+				seen[d.Node] = true
+				if d.Rhs == nil || d.Index != 0 || !pred(d.Rhs) || !inLoop(p.EnclosingFunc(d.Node.Pos())) {
+					return false
+				}
+				n++
+			}
+		}
+		return n > 0
+	}
+	if !allDefs(pairObj, func(rhs ast.Expr) bool {
+		ix, ok := unparen(rhs).(*ast.IndexExpr)
+		if !ok || !p.IsField(ix.X, "Agent.pairsByID") {
+			return false
+		}
+		kid, ok := unparen(ix.Index).(*ast.Ident)
+		return ok && p.ObjOf(kid) == p.paramObj(f, 0)
+	}) {
+		return false
+	}
+	return facts.Has(func(ft Fact) bool {
+		if ft.Op != "==" || !ft.Val || p.constName(ft.Y) != "CandidatePairStateSucceeded" {
+			return false
+		}
+		id, ok := unparen(ft.X).(*ast.Ident)
+		if !ok {
+			return false
+		}
+		return allDefs(p.ObjOf(id), func(rhs ast.Expr) bool {
+			sel, ok := unparen(rhs).(*ast.SelectorExpr)
+			if !ok || !p.IsField(sel, "CandidatePair.state") {
+				return false
+			}
+			x, ok := unparen(sel.X).(*ast.Ident)
+			return ok && p.ObjOf(x) == pairObj
+		})
+	})
 }
